@@ -58,11 +58,30 @@ pub fn readers(files: &[(String, String)]) -> Vec<DescribedReader> {
 pub struct SecResult { pub deltas: Vec<TxDelta>, pub err: Option<String> }
 
 #[derive(Clone, Debug, Default)]
-pub struct RunOpts { pub symbol_base: Vec<String>, pub usd_years: Option<(i32, i32)>, pub date_fmt: Option<String> }
+pub struct RunOpts { pub symbol_base: Vec<String>, pub usd_years: Option<(i32, i32)>, pub date_fmt: Option<String>,
+    /// the rate cache starts out as an earlier run on this day would have left it (every published rate before that day, nothing after)
+    pub stale_cache_until: Option<Date> }
 
 pub enum RunErr { Panic(PanicInfo), Run(String), BadInit(String) }
 
-fn loader_for(o: &RunOpts) -> RateLoader { match o.usd_years { Some((a, b)) => synthetic_loader(a..=b), None => empty_loader() } }
+fn loader_for(o: &RunOpts) -> RateLoader {
+    match (o.usd_years, o.stale_cache_until) {
+        (Some((a, b)), Some(until)) => {
+            let mut remote: HashMap<u32, Vec<DailyRate>> = HashMap::new();
+            let mut cached: HashMap<u32, Vec<DailyRate>> = HashMap::new();
+            for y in a..=b {
+                let mut d = Date::from_calendar_date(y, Month::January, 1).unwrap();
+                let (mut all, mut old) = (vec![], vec![]);
+                while d.year() == y { if let Some(r) = synthetic_rate(d) { all.push(DailyRate::new(d, r)); if d < until { old.push(DailyRate::new(d, r)); } } d = d.next_day().unwrap(); }
+                remote.insert(y as u32, all);
+                if !old.is_empty() { cached.insert(y as u32, old); }
+            }
+            RateLoader::new(false, Box::new(InMemoryRatesCache { rates_by_year: RcRefCellT::new(cached) }), Box::new(MockRemoteRateLoader { remote_year_rates: RcRefCellT::new(remote) }), WriteHandle::empty_write_handle())
+        }
+        (Some((a, b)), None) => synthetic_loader(a..=b),
+        (None, _) => empty_loader(),
+    }
+}
 fn parse_opts(o: &RunOpts) -> Result<TxCsvParseOptions, String> {
     Ok(TxCsvParseOptions { date_format: match &o.date_fmt { Some(f) => Some(acb::util::date::parse_dyn_date_format(f)?), None => None } })
 }
@@ -133,6 +152,29 @@ pub fn run_csv_writer(files: &[(String, String)], o: &RunOpts, full: bool, costs
     match r { Err(p) => Err(RunErr::Panic(p)), Ok(Err(e)) => Err(e), Ok(Ok(res)) => Ok(TextOut { out, err, ok: res.is_ok(), res: res.ok() }) }
 }
 
+/// `--csv-output-dir` as the binary does it: CsvWriter over a scratch directory; returns (file name, content) pairs and the error stream.
+pub fn run_csv_dir(files: &[(String, String)], o: &RunOpts) -> Result<(Vec<(String, String)>, String), RunErr> {
+    reset_globals(far_today());
+    static N: std::sync::atomic::AtomicU64 = std::sync::atomic::AtomicU64::new(0);
+    let base = if std::path::Path::new("/dev/shm").is_dir() { std::path::PathBuf::from("/dev/shm") } else { std::env::temp_dir() };
+    let dir = base.join(format!("acbverif-csvdir-{}-{}", std::process::id(), N.fetch_add(1, std::sync::atomic::Ordering::Relaxed)));
+    let _ = std::fs::remove_dir_all(&dir);
+    let (eh, ebuf) = WriteHandle::string_buff_write_handle();
+    let r = guard(|| -> Result<_, RunErr> {
+        let init = init_status(o).map_err(RunErr::BadInit)?;
+        let po = parse_opts(o).map_err(RunErr::BadInit)?;
+        let mut w = acb::app::outfmt::csv::CsvWriter::new_to_output_dir(&dir.display().to_string()).map_err(|e| RunErr::BadInit(format!("scratch directory: {e}")))?;
+        let wr: &mut dyn AcbWriter = &mut w;
+        Ok(async_std::task::block_on(run_acb_app_to_writer(wr, readers(files), init, &po, false, false, loader_for(o), eh)))
+    });
+    let mut out = vec![];
+    if let Ok(rd) = std::fs::read_dir(&dir) { for e in rd.flatten() { if let Ok(t) = std::fs::read_to_string(e.path()) { out.push((e.file_name().to_string_lossy().to_string(), t)); } } }
+    out.sort();
+    let _ = std::fs::remove_dir_all(&dir);
+    let err = ebuf.borrow().as_str().to_string();
+    match r { Err(p) => Err(RunErr::Panic(p)), Ok(Err(e)) => Err(e), Ok(Ok(_)) => Ok((out, err)) }
+}
+
 pub struct SummaryOut { pub csv: String, pub n_rows: usize, pub warnings: Vec<String> }
 pub enum SummaryErr { Panic(PanicInfo), General(String), Sec(BTreeMap<String, String>), BadInit(String) }
 
@@ -154,6 +196,22 @@ pub fn run_summary(files: &[(String, String)], o: &RunOpts, cut: Date, annual: b
         Ok(SummaryOut { csv: buf.export_string(), n_rows: n, warnings })
     });
     match r { Err(p) => Err(SummaryErr::Panic(p)), Ok(x) => x }
+}
+
+/// Error stream of the console front end of summary mode (what `acb --summarize-before` prints). Only meant for inputs whose
+/// summary fails: on success that front end writes the CSV to the process's real stdout.
+pub fn run_summary_console_errors(files: &[(String, String)], o: &RunOpts, cut: Date, annual: bool, today: Date) -> Result<String, String> {
+    reset_globals(today);
+    let (eh, ebuf) = WriteHandle::string_buff_write_handle();
+    let r = guard(|| -> Result<(), String> {
+        let init = init_status(o)?;
+        let mut opts = acb::app::Options::default();
+        opts.split_annual_summary_gains = annual;
+        opts.csv_parse_options = parse_opts(o)?;
+        let _ = async_std::task::block_on(acb::app::run_acb_app_summary_to_console(cut, readers(files), init, opts, loader_for(o), eh));
+        Ok(())
+    });
+    match r { Err(p) => Err(format!("panic {}", p.sig())), Ok(Err(e)) => Err(e), Ok(Ok(())) => Ok(ebuf.borrow().as_str().to_string()) }
 }
 
 pub fn dec_of(d: &Decimal) -> crate::bigrat::Rat { crate::bigrat::Rat::from_decimal(d) }
